@@ -634,6 +634,34 @@ func eachFieldChange(emit func(pairCase)) {
 		if b := cloneRec(a); regroup(&b) {
 			emit(pairCase{A: a, B: b, C: a, How: "regrouped"})
 		}
+		// gateway records with the discovery bit set (AMTRELAY): every field changed in turn again
+		for i, sp := range layout {
+			if sp.Hint != "amtgwtype" {
+				continue
+			}
+			for _, gw := range []uint64{0x81, 0x82, 0x83} {
+				d := cloneRec(a)
+				d.Fields[i].U = gw
+				for j := range d.Fields {
+					if d.Fields[j].K == wm.GW {
+						switch gw & 0x7f {
+						case 1:
+							d.Fields[j] = wm.Field{K: wm.GW, U: 1, B: []byte{192, 0, 2, 7}}
+						case 2:
+							d.Fields[j] = wm.Field{K: wm.GW, U: 2, B: append([]byte{0x20, 1, 0xd, 0xb8}, make([]byte, 12)...)}
+						default:
+							d.Fields[j] = wm.Field{K: wm.GW, U: 3, N: wm.MustName("Relay.Example.")}
+						}
+					}
+				}
+				for j := range layout {
+					e := cloneRec(d)
+					if changeField(&e, j, layout[j]) {
+						emit(pairCase{A: d, B: e, C: d, How: "one-field-changed"})
+					}
+				}
+			}
+		}
 		for i := range layout {
 			b := cloneRec(a)
 			if changeField(&b, i, layout[i]) {
